@@ -45,15 +45,17 @@ func init() {
 	register(&Rule{
 		Name:  "CHECK-THEN-ACT",
 		IR:    "cfg",
-		Props: []string{"C40", "C36", "C35"},
+		Props: []string{"C40", "C36", "C35", "C01"},
 		// C40: ingest.(*MutableWorlds).FindOrCreateWorld#held, #insert1, #stale, ListWorlds#held, DeleteWorld#held
 		// C36/C35 (#stale): ingest/compact.(*Validator).ValidatePath, (*Validator).ValidateArea, (*NamespacedCounts).Namespace, encoding.(*StringTableBuilder).Write
-		Floor:   3,
-		FloorBy: map[string]int{"C40": 5, "C36": 4, "C35": 4},
+		Floor: 3,
+		// C01/C36/C35 (#order): ingest/compact.(*Validator).ValidatePath
+		FloorBy: map[string]int{"C40": 5, "C36": 5, "C35": 5, "C01": 1},
 		Doc: "for struct types of ingest/api/grpc/ui that own a sync.Mutex/RWMutex and a map field: every store/delete on the map happens with the lock exclusively held and every read with it held; " +
 			"a store that registers a value created in the function is control dependent on the absent outcome of a lookup of the same map and key made in the same critical section (no Unlock/RUnlock between lookup and store); " +
 			"#stale, for every such type of the module (ingest/compact.Validator, NamespacedCounts, …): an action on the owner's state (store, delete, drain) that is decided by a read of a guarded map is not separated " +
-			"from that read by a release of the lock, unless a fresh read of the same map and key in the later critical section decides it too",
+			"from that read by a release of the lock, unless a fresh read of the same map and key in the later critical section decides it too; " +
+			"#order: within one critical section, a call of an owner method that reads guarded map M and is decided by a lookup of M[k] is preceded on every path by the function's store M[k] = … (the drain triggered by k's arrival sees k's new state)",
 		Run: runCheckThenAct,
 	})
 }
@@ -159,6 +161,10 @@ func runCheckThenAct(c *Ctx) []Obligation {
 				// the request-serving registries serve C40; the parallel build state of
 				// ingest/compact (and anything else) serves C36 and C35
 				ob.Props = []string{"C36", "C35"}
+				if strings.HasSuffix(ob.Key, "#order") {
+					// a drain that misses the arriving key loses features of the compact index: C01 as well
+					ob.Props = []string{"C01", "C36", "C35"}
+				}
 				if legacyPkg[relPkg(p)] {
 					ob.Props = []string{"C40"}
 				}
